@@ -1840,4 +1840,280 @@ theorem serversOf_shaped (c : Config) (P : Params) (π : Orders) (hres : c.reser
       subst h
       simp at hk
 
+
+
+/-! ### DESIGN F16, the positive side: which addresses a key keeps does not depend on the
+    order of the servers map unless `ambName` -/
+
+def condOK (https : Nat) (a0 : Addr) (rd : RD) (d : Name) : Prop := hasKey rd d = false ∨ a0.sp = https
+
+theorem rdStepDom_col {https : Nat} {a0 : Addr} {rd : RD} {d1 d : Name} {a : Addr} :
+    assocMem (rdStepDom https a0 rd d1) d a ↔ assocMem rd d a ∨ (d = d1 ∧ a = a0 ∧ condOK https a0 rd d1) := by
+  unfold rdStepDom condOK
+  by_cases h : (!hasKey rd d1 || decide (a0.sp = https)) = true
+  · rw [if_pos h, assocMem_append]
+    have h' : hasKey rd d1 = false ∨ a0.sp = https := by simpa using h
+    constructor
+    · rintro (h1 | ⟨h1, h2⟩)
+      · exact Or.inl h1
+      · exact Or.inr ⟨h1, h2, h'⟩
+    · rintro (h1 | ⟨h1, h2, _⟩)
+      · exact Or.inl h1
+      · exact Or.inr ⟨h1, h2⟩
+  · rw [if_neg h]
+    have h' : ¬(hasKey rd d1 = false ∨ a0.sp = https) := by simpa using h
+    constructor
+    · exact Or.inl
+    · rintro (h1 | ⟨_, _, h3⟩)
+      · exact h1
+      · exact absurd h3 h'
+
+theorem rdFoldDom_col {https : Nat} {a0 : Addr} {d : Name} {a : Addr} :
+    ∀ {doms : List Name} {rd : RD},
+      assocMem (doms.foldl (rdStepDom https a0) rd) d a ↔
+        assocMem rd d a ∨ (d ∈ doms ∧ a = a0 ∧ condOK https a0 rd d)
+  | [], rd => by simp
+  | d1 :: rest, rd => by
+    simp only [List.foldl_cons]
+    rw [rdFoldDom_col (doms := rest), rdStepDom_col]
+    by_cases e : d = d1
+    · subst e
+      have hk : hasKey (rdStepDom https a0 rd d) d = true := by rw [rdStepDom_hasKey]; simp
+      constructor
+      · rintro ((h | ⟨_, h2, h3⟩) | ⟨_, h2, h3⟩)
+        · exact Or.inl h
+        · exact Or.inr ⟨by simp, h2, h3⟩
+        · refine Or.inr ⟨by simp, h2, ?_⟩
+          rcases h3 with h3 | h3
+          · rw [hk] at h3; cases h3
+          · exact Or.inr h3
+      · rintro (h | ⟨_, h2, h3⟩)
+        · exact Or.inl (Or.inl h)
+        · exact Or.inl (Or.inr ⟨rfl, h2, h3⟩)
+    · have hk : hasKey (rdStepDom https a0 rd d1) d = hasKey rd d := by rw [rdStepDom_hasKey]; simp [e]
+      simp only [condOK, hk, List.mem_cons, e, false_or, false_and, or_false]
+
+/-- the addresses a server adds to the column of one of its keys, given whether the key
+    already exists: every listener if the server has no names (catch-all key), else the
+    listeners on the HTTPS port plus — only if the key is new — the first listener -/
+def addedBy (c : Config) (s : Server) (has : Bool) : List Addr :=
+  if (domainSet s).isEmpty then s.listen
+  else s.listen.filter (fun a => decide (a.sp = httpsPort c)) ++ (if has then [] else s.listen.head?.toList)
+
+theorem rdFoldAddr_col_cond {https : Nat} {s : Server} {d : Name} {a : Addr} (hd : d ∈ domainSet s) :
+    ∀ {as : List Addr} {rd : RD},
+      assocMem (as.foldl (rdStepAddr https (domainSet s)) rd) d a ↔
+        assocMem rd d a ∨ (a ∈ as ∧ a.sp = https) ∨ (hasKey rd d = false ∧ as.head? = some a)
+  | [], rd => by simp
+  | a0 :: as, rd => by
+    have hne : (domainSet s).isEmpty = false := by
+      cases hl : domainSet s with
+      | nil => rw [hl] at hd; simp at hd
+      | cons => rfl
+    simp only [List.foldl_cons]
+    rw [rdFoldAddr_col_cond hd (as := as)]
+    have hstep : ∀ a', assocMem (rdStepAddr https (domainSet s) rd a0) d a' ↔
+        assocMem rd d a' ∨ (a' = a0 ∧ condOK https a0 rd d) := by
+      intro a'
+      unfold rdStepAddr
+      rw [if_neg (by simp [hne]), rdFoldDom_col]
+      simp [hd]
+    have hk : hasKey (rdStepAddr https (domainSet s) rd a0) d = true := by
+      rw [rdStepAddr_hasKey]
+      have : (keysOf s).contains d = true := by
+        simp only [keysOf, hne, Bool.false_eq_true, if_false]; simpa using hd
+      rw [this]; simp
+    rw [hstep, hk]
+    simp only [condOK, List.mem_cons, List.head?_cons, Option.some.injEq, Bool.true_eq_false, false_and, or_false]
+    constructor
+    · rintro ((h | ⟨rfl, h | h⟩) | ⟨h1, h2⟩)
+      · exact Or.inl h
+      · exact Or.inr (Or.inr ⟨h, rfl⟩)
+      · exact Or.inr (Or.inl ⟨Or.inl rfl, h⟩)
+      · exact Or.inr (Or.inl ⟨Or.inr h1, h2⟩)
+    · rintro (h | ⟨rfl | h1, h2⟩ | ⟨h1, h2⟩)
+      · exact Or.inl (Or.inl h)
+      · exact Or.inl (Or.inr ⟨rfl, Or.inr h2⟩)
+      · exact Or.inr ⟨h1, h2⟩
+      · exact Or.inl (Or.inr ⟨h2.symm, Or.inl h1⟩)
+
+theorem rdFoldAddr_col_uncond {https : Nat} {s : Server} {a : Addr} (he : (domainSet s).isEmpty = true) :
+    ∀ {as : List Addr} {rd : RD},
+      assocMem (as.foldl (rdStepAddr https (domainSet s)) rd) 0 a ↔ assocMem rd 0 a ∨ a ∈ as
+  | [], rd => by simp
+  | a0 :: as, rd => by
+    simp only [List.foldl_cons]
+    rw [rdFoldAddr_col_uncond he (as := as)]
+    unfold rdStepAddr
+    rw [if_pos he, assocMem_append]
+    simp only [List.mem_cons, true_and]
+    constructor
+    · rintro ((h | h) | h)
+      · exact Or.inl h
+      · exact Or.inr (Or.inl h)
+      · exact Or.inr (Or.inr h)
+    · rintro (h | h | h)
+      · exact Or.inl (Or.inl h)
+      · exact Or.inl (Or.inr h)
+      · exact Or.inr h
+
+/-- the column of a key the server contributes, after the server's turn -/
+theorem rdStepSrv_col (c : Config) {s : Server} {d : Name} {a : Addr} {rd : RD} (hd : d ∈ keysOf s) :
+    assocMem (rdStepSrv c s rd) d a ↔ assocMem rd d a ∨ a ∈ addedBy c s (hasKey rd d) := by
+  unfold rdStepSrv addedBy
+  rcases mem_keysOf_cases.mp hd with ⟨he, rfl⟩ | ⟨he, hds⟩
+  · rw [rdFoldAddr_col_uncond he, if_pos he]
+  · rw [rdFoldAddr_col_cond hds, if_neg (by simp [he])]
+    simp only [List.mem_append, List.mem_filter, decide_eq_true_eq]
+    cases hk : hasKey rd d
+    · simp [Option.mem_toList]
+    · simp
+
+/-- the server adds to the columns of its own keys only -/
+theorem rdStepSrv_col_other (c : Config) {s : Server} {d : Name} {a : Addr} {rd : RD} (hd : d ∉ keysOf s) :
+    assocMem (rdStepSrv c s rd) d a ↔ assocMem rd d a := by
+  unfold rdStepSrv
+  constructor
+  · intro h
+    rcases rdFoldAddr_sound h with h | ⟨h1, _⟩
+    · exact h
+    · exact absurd h1 hd
+  · exact rdFoldAddr_mono
+
+def contributes (c : Config) (s : Server) (d : Name) : Prop := redirOn c s = true ∧ d ∈ keysOf s
+
+/-- what a contributor keeps for key `d` when it comes first (π-free) -/
+def keep (c : Config) (s : Server) : List Addr := addedBy c s false
+
+theorem addedBy_indep {c : Config} {s : Server} {has : Bool} {a : Addr}
+    (h : (domainSet s).isEmpty = true ∨ offHTTPS c s = false) : a ∈ addedBy c s has ↔ a ∈ keep c s := by
+  unfold keep addedBy
+  rcases h with h | h
+  · simp [h]
+  · split
+    · rfl
+    · cases has
+      · rfl
+      · simp only [List.mem_append, List.mem_filter, decide_eq_true_eq, if_true, List.not_mem_nil, or_false,
+          Bool.false_eq_true, if_false, Option.mem_toList]
+        constructor
+        · exact Or.inl
+        · rintro (h1 | h1)
+          · exact h1
+          · have hm : a ∈ s.listen := List.mem_of_mem_head? h1
+            simp only [offHTTPS, List.any_eq_false, decide_eq_true_eq, Decidable.not_not] at h
+            exact ⟨hm, h a hm⟩
+
+theorem nodup_indexed_keys {α} : ∀ (l : List α) (n : Nat), ((indexed l n).map (·.1)).Nodup ∧ ∀ k ∈ (indexed l n).map (·.1), n ≤ k
+  | [], _ => by simp [indexed]
+  | x :: xs, n => by
+    obtain ⟨h1, h2⟩ := nodup_indexed_keys xs (n + 1)
+    simp only [indexed, List.map_cons, List.nodup_cons, List.mem_cons]
+    refine ⟨⟨?_, h1⟩, ?_⟩
+    · intro h; have := h2 n h; omega
+    · rintro k (rfl | h)
+      · exact Nat.le_refl _
+      · have := h2 k h; omega
+
+/-- the column of key `d` after the main loop over ANY duplicate-free selection of the
+    configured servers, provided `d` is not ambiguous: exactly what each contributor keeps -/
+theorem mainLoop_col (c : Config) (P : Params) (d : Name) (hamb : ambName c d = false) (a : Addr) :
+    ∀ (l seen : List (Nat × Server)) (st : List Name × RD),
+      (∀ ks ∈ seen ++ l, ks ∈ indexed c.servers 0) → ((seen ++ l).map (·.1)).Nodup → NonEmptyVals st.2 →
+      (∀ a', assocMem st.2 d a' ↔ ∃ ks ∈ seen, contributes c ks.2 d ∧ a' ∈ keep c ks.2) →
+      (assocMem (l.foldl (mainStep c P) st).2 d a ↔ ∃ ks ∈ seen ++ l, contributes c ks.2 d ∧ a ∈ keep c ks.2)
+  | [], seen, st, _, _, _, hst => by simpa using hst a
+  | ks :: l, seen, st, hsub, hnd, hne, hst => by
+    simp only [List.foldl_cons]
+    have hassoc : seen ++ ks :: l = (seen ++ [ks]) ++ l := by simp
+    rw [hassoc] at hsub hnd ⊢
+    apply mainLoop_col c P d hamb a l (seen ++ [ks]) _ hsub hnd (mainStep_rd_nonEmpty c P hne)
+    intro a'
+    by_cases hc : contributes c ks.2 d
+    · -- the server contributes key d
+      obtain ⟨hr, hk⟩ := hc
+      have he := (redirOn_iff.mp hr).1
+      have hstep : (mainStep c P st ks).2 = rdStepSrv c ks.2 st.2 := by
+        unfold mainStep; simp [he, (redirOn_iff.mp hr).2]
+      rw [hstep, rdStepSrv_col c hk, hst a']
+      have hindep : a' ∈ addedBy c ks.2 (hasKey st.2 d) ↔ a' ∈ keep c ks.2 := by
+        by_cases hcond : (domainSet ks.2).isEmpty = true ∨ offHTTPS c ks.2 = false
+        · exact addedBy_indep hcond
+        · -- a server with names of its own, off the HTTPS port: it must be the first contributor
+          have hcond' : (domainSet ks.2).isEmpty = false ∧ offHTTPS c ks.2 = true := by
+            constructor
+            · cases h1 : (domainSet ks.2).isEmpty with
+              | false => rfl
+              | true => exact absurd (Or.inl h1) hcond
+            · cases h2 : offHTTPS c ks.2 with
+              | true => rfl
+              | false => exact absurd (Or.inr h2) hcond
+          have hnokey : hasKey st.2 d = false := by
+            cases hh : hasKey st.2 d with
+            | false => rfl
+            | true =>
+              exfalso
+              obtain ⟨a'', ha''⟩ := assocMem_of_hasKey hne hh
+              obtain ⟨ks', hks', hc', _⟩ := (hst a'').mp ha''
+              have hne' : ks'.1 ≠ ks.1 := by
+                intro e
+                have := hnd
+                simp only [List.map_append, List.map_cons, List.map_nil, List.append_assoc] at this
+                rw [List.nodup_append] at this
+                exact this.2.2 ks'.1 (List.mem_map.mpr ⟨ks', hks', rfl⟩) ks.1 (by simp) e
+              have h1 := hsub ks (by simp)
+              have h2 := hsub ks' (by simp [hks'])
+              have : ambName c d = true := by
+                simp only [ambName, List.any_eq_true, Bool.and_eq_true, decide_eq_true_eq, Bool.not_eq_true']
+                exact ⟨ks, h1, ⟨⟨⟨⟨hr, by simpa using hk⟩, hcond'.1⟩, hcond'.2⟩, ks', h2, ⟨hne', hc'.1⟩, by simpa using hc'.2⟩⟩
+              rw [hamb] at this; cases this
+          rw [hnokey]; rfl
+      rw [hindep]
+      simp only [List.mem_append, List.mem_singleton]
+      constructor
+      · rintro (⟨ks', h1, h2⟩ | h)
+        · exact ⟨ks', Or.inl h1, h2⟩
+        · exact ⟨ks, Or.inr rfl, ⟨hr, hk⟩, h⟩
+      · rintro ⟨ks', h1 | rfl, h2⟩
+        · exact Or.inl ⟨ks', h1, h2⟩
+        · exact Or.inr h2.2
+    · -- the server does not contribute key d: the column is untouched
+      have hsame : assocMem (mainStep c P st ks).2 d a' ↔ assocMem st.2 d a' := by
+        unfold mainStep
+        split
+        · rename_i he
+          simp only
+          split
+          · rfl
+          · rename_i hr
+            apply rdStepSrv_col_other
+            intro hk
+            exact hc ⟨redirOn_iff.mpr ⟨he, by simpa using hr⟩, hk⟩
+        · rfl
+      rw [hsame, hst a']
+      simp only [List.mem_append, List.mem_singleton]
+      constructor
+      · rintro ⟨ks', h1, h2⟩; exact ⟨ks', Or.inl h1, h2⟩
+      · rintro ⟨ks', h1 | rfl, h2⟩
+        · exact ⟨ks', h1, h2⟩
+        · exact absurd h2.1 hc
+
+/-- **`redirDomains` is order-independent for every unambiguous key**: the addresses kept
+    for `d` are what each contributing server keeps on its own -/
+theorem redirDomains_col (c : Config) (P : Params) (π : Orders) (d : Name) (hamb : ambName c d = false) (a : Addr) :
+    assocMem (mainLoop c P π).2 d a ↔ ∃ s ∈ c.servers, contributes c s d ∧ a ∈ keep c s := by
+  unfold mainLoop
+  have hperm := pull_perm π.srv (indexed c.servers 0)
+  rw [mainLoop_col c P d hamb a (pull π.srv (indexed c.servers 0)) [] ([], [])
+    (by intro ks h; simpa using mem_pull.mp (by simpa using h))
+    (by simpa using ((hperm.map (·.1)).nodup_iff).mpr (nodup_indexed_keys c.servers 0).1)
+    (fun _ _ h => by simp at h)
+    (by intro a'; simp [assocMem_nil])]
+  simp only [List.nil_append]
+  constructor
+  · rintro ⟨ks, h1, h2⟩; exact ⟨ks.2, mem_indexed (mem_pull.mp h1), h2⟩
+  · rintro ⟨s, hs, h2⟩
+    obtain ⟨i, hi⟩ := exists_indexed 0 hs
+    exact ⟨(i, s), mem_pull.mpr hi, h2⟩
+
 end CaddyModel.C11
